@@ -719,6 +719,12 @@ class Searcher(object):
             # queue to only collect the top N documents
             c = collectors.TopCollector(limit, usequality=optimize)
 
+        # Filtering wraps the basic collector: the other wrappers (groups,
+        # collapsing) then work on the documents it lets through, while they
+        # collect and when they count afterwards
+        if filter is not None or mask is not None:
+            c = collectors.FilterCollector(c, filter, mask)
+
         if groupedby:
             c = collectors.FacetCollector(c, groupedby, maptype=maptype)
         if terms:
@@ -726,10 +732,6 @@ class Searcher(object):
         if collapse:
             c = collectors.CollapseCollector(c, collapse, limit=collapse_limit,
                                              order=collapse_order)
-
-        # Filtering wraps last so it sees the docs first
-        if filter is not None or mask is not None:
-            c = collectors.FilterCollector(c, filter, mask)
         return c
 
     def search(self, q, **kwargs):
